@@ -199,8 +199,12 @@ Definition prop_index (ps : option schema) : res (option Z) :=
   | _ => Panic
   end.
 
+Section build.
+(* [pf] is processField (the recursion is tied in [processSchema] below) *)
+Variable pf : bytes -> option schema -> res fparam.
+
 (* the loop of buildABIParameterArrayForObject over the map entries in the order given *)
-Fixpoint build_loop (pf : bytes -> option schema -> res fparam) (props : list (bytes * option schema))
+Fixpoint build_loop (props : list (bytes * option schema))
          (slots : list (option fparam)) : res (list (option fparam)) :=
   match props with
   | [] => Ok slots
@@ -214,7 +218,7 @@ Fixpoint build_loop (pf : bytes -> option schema -> res fparam) (props : list (b
           do cur <- slot_get slots (Z.to_nat z);
           match cur with
           | Some _ => Err EInvalidDetails
-          | None => do slots' <- slot_set slots (Z.to_nat z) p; build_loop pf r slots'
+          | None => do slots' <- slot_set slots (Z.to_nat z) p; build_loop r slots'
           end
       end
   end.
@@ -229,10 +233,10 @@ Fixpoint collect (slots : list (option fparam)) : res (list fparam) :=
   | Some p :: r => do ps <- collect r; Ok (p :: ps)
   end.
 
-Definition buildABIParameterArrayForObject (pf : bytes -> option schema -> res fparam)
-           (props : list (bytes * option schema)) : res (list fparam) :=
-  do slots <- build_loop pf props (repeat None (length props));
+Definition buildABIParameterArrayForObject (props : list (bytes * option schema)) : res (list fparam) :=
+  do slots <- build_loop props (repeat None (length props));
   collect slots.
+End build.
 
 (* processField on a non-nil schema *)
 Fixpoint processSchema (name : bytes) (s : schema) {struct s} : res fparam :=
